@@ -61,7 +61,7 @@ def run(prop, seed, repo):
     # (ii) other configurations
     for cfg in ('nodebug', 'zero_worker'):
         try:
-            c2, ctx2 = runner.run_property(prop, 'thorough', seed, repo, cfg, quiet=True, write_evidence=False)
+            c2, ctx2 = runner.run_property(prop, 'thorough', seed, repo, cfg, quiet=True, write_evidence=False, anchors_fail_closed=True)
         except Exception as e:  # pragma: no cover
             c2, ctx2 = 2, None
         if ctx2 is None:
